@@ -592,7 +592,7 @@ fn build(r: &mut StdRng, n: &str, comps: &[Value], valid: bool) -> Built {
     Built { method, target, headers, body, chunked, want }
 }
 
-fn request_bytes(r: &mut StdRng, b: &Built) -> Vec<u8> {
+fn request_bytes(r: &mut StdRng, b: &Built, trailers_ok: bool) -> Vec<u8> {
     match &b.body {
         None => httpc::build_request(b.method, &b.target, &b.headers, None),
         Some(body) if !b.chunked => httpc::build_request(b.method, &b.target, &b.headers, Some(body)),
@@ -608,7 +608,9 @@ fn request_bytes(r: &mut StdRng, b: &Built) -> Vec<u8> {
                 sizes.push(s);
                 left -= s;
             }
-            req.extend_from_slice(&httpc::chunked_body(body, &sizes, r.gen_bool(0.3), r.gen_bool(0.3)));
+            let ext = r.gen_bool(0.3);
+            let trailer = r.gen_bool(0.3) && trailers_ok;
+            req.extend_from_slice(&httpc::chunked_body(body, &sizes, ext, trailer));
             req
         }
     }
@@ -634,6 +636,110 @@ async fn send_one(addr: std::net::SocketAddr, n: String, case: Value, valid: boo
     } else {
         emit("client_noresp", json!({"n": n, "problem": resp.problem}));
     }
+}
+
+type Job = (String, Value, bool, Built, Vec<u8>);
+
+fn emit_send(n: &str, case: &Value, valid: bool, port: u16, built: &Built, target: &str) {
+    emit("flow_send", json!({"n": n, "case": case, "valid": valid, "port": port, "m": built.method,
+        "target_hex": hex(target.as_bytes()),
+        "want_hex": built.want.as_ref().map(|w| hex(serde_json::to_string(w).unwrap().as_bytes())).unwrap_or_default()}));
+}
+
+/// Several requests written back to back on one HTTP/1.1 connection before any response is read (pipelining);
+/// the responses must come back in order, each handler seeing only its own request.
+async fn send_pipelined(addr: std::net::SocketAddr, group: Vec<Job>) {
+    let sock = tokio::net::TcpSocket::new_v4().unwrap();
+    sock.bind("127.0.0.1:0".parse().unwrap()).unwrap();
+    let port = sock.local_addr().unwrap().port();
+    let mut all = vec![];
+    for (n, case, valid, built, bytes) in &group {
+        emit_send(n, case, *valid, port, built, &built.target);
+        all.extend_from_slice(bytes);
+    }
+    let Ok(mut s) = sock.connect(addr).await else {
+        for (n, ..) in &group {
+            emit("client_noresp", json!({"n": n, "problem": "connect"}));
+        }
+        return;
+    };
+    let _ = s.set_nodelay(true);
+    let _ = s.write_all(&all).await;
+    let mut rd = httpc::Reader::new();
+    for (n, ..) in &group {
+        let resp = rd.read_response(&mut s, false, Duration::from_secs(20)).await;
+        if resp.wellformed {
+            emit("client_recv", json!({"n": n, "status": resp.status, "idhdr": resp.headers_all("x-request-id"), "pipelined": true}));
+        } else {
+            emit("client_noresp", json!({"n": n, "problem": resp.problem, "pipelined": true}));
+        }
+    }
+}
+
+/// Several requests as concurrent streams of one HTTP/2 connection.  Requests whose target hyper's client
+/// refuses to encode are returned to be sent the plain way.
+async fn send_h2(addr: std::net::SocketAddr, group: Vec<Job>) -> Vec<Job> {
+    let mut rest = vec![];
+    let sock = tokio::net::TcpSocket::new_v4().unwrap();
+    sock.bind("127.0.0.1:0".parse().unwrap()).unwrap();
+    let port = sock.local_addr().unwrap().port();
+    let Ok(s) = sock.connect(addr).await else { return group };
+    let _ = s.set_nodelay(true);
+    let io = hyper_util::rt::TokioIo::new(s);
+    let Ok((sender, conn)) = hyper::client::conn::http2::handshake::<_, _, http_body_util::Full<bytes::Bytes>>(hyper_util::rt::TokioExecutor::new(), io).await else {
+        return group;
+    };
+    let driver = tokio::spawn(async move {
+        let _ = conn.await;
+    });
+    let mut tasks = vec![];
+    for job in group {
+        let (n, case, valid, built, _) = &job;
+        let absolute = format!("http://localhost{}", built.target);
+        let mut b = http::Request::builder().method(built.method).uri(absolute.as_str());
+        for (k, v) in &built.headers {
+            let k = k.to_ascii_lowercase();
+            if k == "content-length" || k == "transfer-encoding" || k == "connection" || k == "host" {
+                continue;
+            }
+            b = b.header(k.as_str(), v.as_bytes());
+        }
+        let body = http_body_util::Full::new(bytes::Bytes::from(built.body.clone().unwrap_or_default()));
+        let req = match b.body(body) {
+            // the client must be able to say exactly what it means: same path-and-query bytes
+            Ok(rq) if rq.uri().path_and_query().map(|pq| pq.as_str()) == Some(built.target.as_str()) => rq,
+            _ => {
+                rest.push(job);
+                continue;
+            }
+        };
+        emit_send(n, case, *valid, port, built, &absolute);
+        let mut sender = sender.clone();
+        let n = n.clone();
+        tasks.push(tokio::spawn(async move {
+            if sender.ready().await.is_err() {
+                emit("client_noresp", json!({"n": n, "problem": "h2 not ready"}));
+                return;
+            }
+            match tokio::time::timeout(Duration::from_secs(20), sender.send_request(req)).await {
+                Ok(Ok(resp)) => {
+                    let status = resp.status().as_u16();
+                    let idhdr: Vec<String> = resp.headers().get_all("x-request-id").iter().map(|v| v.to_str().unwrap_or("?").to_string()).collect();
+                    use http_body_util::BodyExt;
+                    let _ = resp.into_body().collect().await;
+                    emit("client_recv", json!({"n": n, "status": status, "idhdr": idhdr, "h2": true}));
+                }
+                Ok(Err(e)) => emit("client_noresp", json!({"n": n, "problem": format!("h2: {}", e)})),
+                Err(_) => emit("client_noresp", json!({"n": n, "problem": "h2 timeout"})),
+            }
+        }));
+    }
+    for t in tasks {
+        let _ = t.await;
+    }
+    drop(sender);
+    driver.abort();
+    rest
 }
 
 fn main() {
@@ -681,13 +787,53 @@ fn main() {
             // shuffle so that neighbours in a concurrent batch differ
             for i in (1..all.len()).rev() { let j = r.gen_range(0..=i); all.swap(i, j); }
             for batch in all.chunks(16) {
-                let mut tasks = vec![];
+                // transport of this batch: one connection per request, pipelined groups on shared HTTP/1.1
+                // connections, or concurrent streams of HTTP/2 connections -- all at once in every case
+                let mode = r.gen_range(0..4);
+                let mut jobs: Vec<Job> = vec![];
                 for (comps, valid) in batch {
                     ctr += 1;
                     let n = format!("f{}x{}", rep, ctr);
                     let built = build(&mut r, &n, &jarr(comps), *valid);
-                    let bytes = request_bytes(&mut r, &built);
-                    tasks.push(tokio::spawn(send_one(addr, n, comps.clone(), *valid, built, bytes)));
+                    // hyper answers a chunked request that carries a trailer section and then closes the
+                    // connection (observed; the request itself is served correctly), so such a request is not
+                    // followed by a pipelined one
+                    let bytes = request_bytes(&mut r, &built, mode != 1);
+                    jobs.push((n, comps.clone(), *valid, built, bytes));
+                }
+                let mut tasks = vec![];
+                let mut plain: Vec<Job> = vec![];
+                match mode {
+                    1 => {
+                        // an error response may legitimately end an HTTP/1 connection whose request body was
+                        // not read, so only requests that are valid or have no body are pipelined
+                        let (ok, other): (Vec<Job>, Vec<Job>) = jobs.into_iter().partition(|j| j.2 || j.3.body.is_none());
+                        plain = other;
+                        let mut it = ok.into_iter().peekable();
+                        while it.peek().is_some() {
+                            let k = r.gen_range(2..=5);
+                            let group: Vec<Job> = it.by_ref().take(k).collect();
+                            tasks.push(tokio::spawn(send_pipelined(addr, group)));
+                        }
+                    }
+                    2 => {
+                        let mut it = jobs.into_iter().peekable();
+                        let mut h2tasks = vec![];
+                        while it.peek().is_some() {
+                            let k = r.gen_range(2..=8);
+                            let group: Vec<Job> = it.by_ref().take(k).collect();
+                            h2tasks.push(tokio::spawn(send_h2(addr, group)));
+                        }
+                        for t in h2tasks {
+                            if let Ok(rest) = t.await {
+                                plain.extend(rest);
+                            }
+                        }
+                    }
+                    _ => plain = jobs,
+                }
+                for (n, comps, valid, built, bytes) in plain {
+                    tasks.push(tokio::spawn(send_one(addr, n, comps, valid, built, bytes)));
                 }
                 for t in tasks {
                     let _ = t.await;
